@@ -934,7 +934,7 @@ Plan gen_c11(uint64_t seed, const GenOpts &o) {
   World &w = g.p.w.k;
   uint64_t lim = (uint64_t) g.pick({ 16, 20, 32, 64, 100, 256, 256 });
   if (seed % 200 == 0) lim = (uint64_t) g.pick({ 1024, 20000 });
-  if (seed % 400 == 1) lim = (uint64_t) g.pick({ 1048577, 2000000, (int64_t) 0x7fffffffffffffffll });
+  if (seed % 200 == 1) lim = (uint64_t) g.pick({ 1048577, 2000000, (int64_t) 0x7fffffffffffffffll, 4294967296ll + 64, 4294967296ll + 1024, 3 * 4294967296ll + 300, 4294967296ll });
   w.rlim_cur = lim;
   if (lim > 4096) w.rlim_max = lim;
   uint64_t span = lim > 4000 ? 4000 : lim;
@@ -957,6 +957,13 @@ Plan gen_c11(uint64_t seed, const GenOpts &o) {
     c.script.push_back(Step{ Step::READ_EOF, 0, 0, 0 });
     c.script.push_back(Step{ Step::EXIT, 0, t, 0 });
     g.add_child(c);
+    if (t > 0 && lim <= 256 && g.chance(35)) {
+      // this thread raises the limit and opens a descriptor above the old one while the other threads are inside start
+      uint64_t lim2 = lim + (uint64_t) g.pick({ 1, 8, 64, 300 });
+      Op &u = g.op(OP_USERFD, -1, t); u.a = 1; u.b = (int64_t) lim2;
+      Op &u2 = g.op(OP_USERFD, -1, t); u2.a = 2; u2.b = (int64_t) g.r.range((int64_t) lim, (int64_t) lim2 - 1); u2.c = 0;
+      lim = lim2;
+    }
     g.op(OP_NEW, t, t);
     StartSpec s = simple_start(g, t);
     if (g.chance(50)) rand_redirects(g, s);
@@ -1073,8 +1080,18 @@ Plan gen_c17(uint64_t seed, const GenOpts &o) {
   if (g.chance(35)) s.input_size = g.pick({ 0, 1, (int64_t) cap - 1, (int64_t) cap, (int64_t) cap + 1, 4 * (int64_t) cap });
   s.stop[0] = g.C.S_KILL; s.stop[1] = g.C.INFINITE_;
   g.op(OP_NEW, 0);
+  // the handle may have a history: a start that failed (program not found, bad directory) in the *other* mode
+  bool restarted = g.chance(10);
+  if (restarted) {
+    StartSpec bad = s;
+    bad.nonblocking = !s.nonblocking;
+    bad.input_size = g.chance(50) ? -1 : 1;
+    if (g.chance(50)) bad.prog = (int) g.pick({ 4, 5, 7 }); else bad.wd = (int) g.pick({ 2, 3 });
+    Op &b = g.op(OP_START, 0); b.spec = g.add_start(bad);
+    if (s.input_size < 0 && g.chance(60)) s.input_size = g.pick({ (int64_t) cap + 1, 4 * (int64_t) cap });
+  }
   Op &st = g.op(OP_START, 0); st.spec = g.add_start(s);
-  if (g.chance(12)) g.fault(1, g.chance(70) ? K_fcntl_setfl : K_fcntl_getfl, (int) g.r.range(1, 4), false, (int) g.pick({ EINVAL, EPERM }));
+  if (!restarted && g.chance(12)) g.fault(1, g.chance(70) ? K_fcntl_setfl : K_fcntl_getfl, (int) g.r.range(1, 4), false, (int) g.pick({ EINVAL, EPERM }));
   if (kind == 4 && g.chance(70)) { if (g.chance(50)) g.op(OP_WAIT, 0).a = 1000; else { Op &sp = g.op(OP_STOP, 0); sp.a = g.C.S_WAIT; sp.b = 1000; } }
   int n = (int) g.r.range(1, 10);
   for (int i = 0; i < n; i++) {
